@@ -136,8 +136,44 @@ def rollback(repo: Repo) -> RuleRun:
     check_from(body_first[0], "no-improvement", tests[0].stmt)
     # grid_final must be measured after the minimiser and before the test
     fin = [n for n in g.stmt_nodes() if n.kind == "stmt" and isinstance(n.stmt, ast.Assign) and ast.unparse(n.stmt.targets[0]).endswith("grid_final")]
-    ok = bool(fin) and all(g.dominates(mins[0], f_) and g.dominates(f_, tests[0]) for f_ in fin) and all("quality" in ast.unparse(f_.stmt.value) for f_ in fin)
-    r.check(ok, fn, "final grid quality measured between minimiser and test", "reporter.grid_final is not measured (from grid.quality) after the minimiser and before the rollback test", tests[0].stmt, key="grid_final")
+    def measured_on_grid(e: ast.expr, depth: int = 0) -> bool:
+        """the value IS <self.grid>.quality, re-read from the grid as it stands - on every alternative of a conditional; the
+        minimiser's own best value belongs to another point than the one the grid is left at"""
+        if isinstance(e, ast.IfExp):
+            return measured_on_grid(e.body, depth) and measured_on_grid(e.orelse, depth)
+        if isinstance(e, ast.Name) and depth < 4:
+            defs = [n.value for n in ast.walk(fn.node) if isinstance(n, ast.Assign) and len(n.targets) == 1 and isinstance(n.targets[0], ast.Name) and n.targets[0].id == e.id]
+            return bool(defs) and all(measured_on_grid(d, depth + 1) for d in defs)
+        if isinstance(e, ast.Call) and (attr_chain(e.func) or "") in ("float", "np.float64") and len(e.args) == 1:
+            return measured_on_grid(e.args[0], depth)
+        return (attr_chain(e) or "") == "self.grid.quality"
+
+    ok = bool(fin) and all(g.dominates(mins[0], f_) and g.dominates(f_, tests[0]) for f_ in fin) and all(measured_on_grid(f_.stmt.value) for f_ in fin)
+    r.check(
+        ok,
+        fn,
+        "final grid quality re-measured on the grid between minimiser and test",
+        "reporter.grid_final is not self.grid.quality re-measured after the minimiser and before the rollback test"
+        + (f" ('{ast.unparse(fin[0].stmt)[:90]}')" if fin else "")
+        + ": the minimiser's result belongs to its best point, the grid is left at the LAST point it tried - the rollback decision must be made on the state that is kept",
+        tests[0].stmt,
+        key="grid_final",
+    )
+    # ... and the initial value it is compared with is the grid's quality measured before the minimiser
+    ctor = [c for c in ast.walk(fn.node) if isinstance(c, ast.Call) and (attr_chain(c.func) or "").split(".")[-1] == imp.cls.name]
+    r.require(len(ctor) == 1, f"optimize_clamp: one {imp.cls.name}(...) expected")
+    fields = [st.target.id for st in imp.cls.node.body if isinstance(st, ast.AnnAssign) and isinstance(st.target, ast.Name)]
+    r.require("grid_initial" in fields, f"{imp.cls.name}.grid_initial field vanished")
+    gi_arg = None
+    for k in ctor[0].keywords:
+        if k.arg == "grid_initial":
+            gi_arg = k.value
+    pos = fields.index("grid_initial")
+    if gi_arg is None and pos < len(ctor[0].args):
+        gi_arg = ctor[0].args[pos]
+    ctor_nodes = [n for n in g.stmt_nodes() if any(c is ctor[0] for c in node_calls(n))]
+    ok_i = gi_arg is not None and measured_on_grid(gi_arg) and bool(ctor_nodes) and all(g.dominates(cn, mins[0]) for cn in ctor_nodes)
+    r.check(ok_i, fn, "initial grid quality measured on the grid before the minimiser", f"the initial value of the rollback comparison is '{ast.unparse(gi_arg) if gi_arg is not None else 'missing'}', not self.grid.quality measured before the minimiser runs", ctor[0], key="grid_initial")
     # handlers
     handlers = [n for n in g.nodes if n.kind == "except"]
     r.require(len(handlers) >= 1, "optimize_clamp: exception handler for degenerate cells not found")
@@ -398,4 +434,23 @@ def angle_dimension(repo: Repo) -> RuleRun:
 
 angle_dimension.rule_id = "C13.ANGLE-DIMENSION"
 
-RULES = [rollback, probe_restore, who_writes_points, backport_rule, warning_filter, affine_kinds, link_relation, owns_geometry, angle_dimension]
+def float_stores(repo: Repo) -> RuleRun:
+    """'linked vertices follow their leader exactly': a follower computed from a truncated leader is up to one unit off. Arrays stored into in place are float arrays by construction."""
+    from ..alias import inplace_dtype_rule
+
+    return inplace_dtype_rule(repo, PROP, "C13.FLOAT-STORES")
+
+
+float_stores.rule_id = "C13.FLOAT-STORES"
+
+def backport_table(repo: Repo) -> RuleRun:
+    """'the positions kept are the positions written': the copy-back after optimisation moves EVERY mesh vertex / sketch face to the grid point of the same index. Same rule as C15.BACKPORT."""
+    from ..report import rebrand
+    from . import c15
+
+    return rebrand(c15.backport(repo), PROP, "C13.BACKPORT-TABLE")
+
+
+backport_table.rule_id = "C13.BACKPORT-TABLE"
+
+RULES = [rollback, probe_restore, who_writes_points, backport_rule, warning_filter, affine_kinds, link_relation, owns_geometry, angle_dimension, float_stores, backport_table]
